@@ -39,7 +39,7 @@ REQUIRED_COUNTERS = [
     "documents", "modules.executed", "classes.compared", "classes.equal", "verdicts.compared",
     "verdicts.accept", "verdicts.reject", "model.agrees", "doc.cross_file", "doc.chained_ref", "doc.same_title_same_body",
     "doc.same_title_other_body", "doc.untitled_object", "docstrings.seen", "source_kw.seen", "imports.maybe",
-    "cli.subprocess", "class_count.checked", "description.hostile",
+    "cli.subprocess", "class_count.checked", "description.hostile", "doc.sibling_variant_same_process",
 ]
 VOCAB_TRIGGER = None
 
@@ -142,7 +142,41 @@ def doc_features(ctx, doc):
     _ = text
 
 
-def one_doc(ctx, sut, fpm, idx):
+def variant_of(doc, tag):
+    """A sibling document for the same process: the same files under new names, plus - as the FIRST
+    property of the root - an object schema that re-uses the title of an object nested deeper but has
+    another body, so that class numbering (Foo / Foo_1) shifts between the two documents while most
+    classes stay structurally equal.  Aims at state or caches that survive from one generation to the
+    next."""
+    text = json.dumps(doc["files"])
+    rename = {name: name.replace(".json", f"_{tag}.json") for name in doc["files"]}
+    for old_name, new_name in rename.items():
+        text = text.replace(old_name, new_name)
+    files = json.loads(text)
+    entry = rename[doc["entry"]]
+    root = files[entry]
+    titles = []
+
+    def collect(node, depth=0):
+        if isinstance(node, dict):
+            if node.get("type") == "object" and isinstance(node.get("title"), str) and depth > 0:
+                titles.append(node["title"])
+            for key, val in node.items():
+                if key not in ("const", "enum", "default"):
+                    collect(val, depth + 1)
+        elif isinstance(node, list):
+            for val in node:
+                collect(val, depth + 1)
+
+    collect(root)
+    if not titles or not isinstance(root.get("properties"), dict):
+        return None
+    extra = {"type": "object", "title": titles[-1], "properties": {"vvv": {"type": "integer"}}, "required": ["vvv"]}
+    root["properties"] = {"aaa": extra, **root["properties"]}
+    return {"files": files, "entry": entry, "all_titled": doc["all_titled"]}
+
+
+def one_doc(ctx, sut, fpm, idx, given=None):
     rng = ctx.rng
     serial = f"{ctx.shard}_{idx}_{os.getpid()}"
     f22_mode = idx % 10 == 9
@@ -155,7 +189,9 @@ def one_doc(ctx, sut, fpm, idx):
         names = [n for n in names if n not in ("é", "1st")]
     gen = gen_docs.DocGen(rng, serial, names=names, hostile_descriptions=hostile,
                           f22_titles=0.3 if f22_mode else 0.0, untitled=0.0 if idx % 2 else 0.5)
-    doc = gen.doc()
+    doc = given or gen.doc()
+    if given is not None:
+        ctx.count("doc.sibling_variant_same_process")
     try:
         resolved = gen_docs.resolve(doc)
     except Exception:  # pylint: disable=broad-except
@@ -303,6 +339,7 @@ def one_doc(ctx, sut, fpm, idx):
                             finding=finding)
                 return
     ctx.sample({"files": doc["files"], "module_head": text[:400]}, every=15)
+    return doc
 
 
 def cli_check(ctx, directory, path, text, case, finding):
@@ -338,7 +375,11 @@ def run_shard(ctx):
     from vlib import sut  # pylint: disable=import-outside-toplevel
 
     for idx in range(ctx.params["docs"]):
-        one_doc(ctx, sut, fpm, idx)
+        doc = one_doc(ctx, sut, fpm, idx)
+        if doc is not None and idx % 2 == 1:
+            sibling = variant_of(doc, "v")
+            if sibling is not None:
+                one_doc(ctx, sut, fpm, idx, given=sibling)
 
 
 def replay(case, ctx):
@@ -354,13 +395,4 @@ def replay(case, ctx):
     files = json.loads(text)
     doc = {"files": files, "entry": rename[case["entry"]], "all_titled": False}
 
-    class _Fixed(gen_docs.DocGen):
-        def doc(self):  # pylint: disable=arguments-differ
-            return doc
-
-    original = gen_docs.DocGen
-    gen_docs.DocGen = lambda *a, **k: _Fixed(*a, **k)  # type: ignore
-    try:
-        one_doc(ctx, sut, fpm, 1)
-    finally:
-        gen_docs.DocGen = original
+    one_doc(ctx, sut, fpm, 1, given=doc)
